@@ -491,7 +491,7 @@ func (p *Path) MtEntry() (*big.Int, error) {
 	for i := range p.parts {
 		switch v := p.parts[i].(type) {
 		case string:
-			intKeyParts[i], err = h.HashBytes([]byte(v))
+			intKeyParts[i], err = hashBytes(h, []byte(v))
 			if err != nil {
 				return nil, err
 			}
@@ -1848,7 +1848,21 @@ func mkValueBool(h Hasher, val bool) (*big.Int, error) {
 }
 
 func mkValueString(h Hasher, val string) (*big.Int, error) {
-	return h.HashBytes([]byte(val))
+	return hashBytes(h, []byte(val))
+}
+
+// hashBytes hashes a message with h. A nil hash without an error, which
+// poseidon.HashBytes and hashers built on it return for an empty message, is
+// reported as an error: it must not reach the Merkle tree.
+func hashBytes(h Hasher, msg []byte) (*big.Int, error) {
+	res, err := h.HashBytes(msg)
+	if err != nil {
+		return nil, err
+	}
+	if res == nil {
+		return nil, errors.New("hasher returned no hash for the message")
+	}
+	return res, nil
 }
 
 func mkValueTime(h Hasher, val time.Time) (*big.Int, error) {
